@@ -1,7 +1,8 @@
 ------------------------ MODULE MultimapHistoryTrace ------------------------
 (* C17, concurrent clause: invoke / return events of index operations issued   *)
 (* by several goroutines on one index (ordered by a shared atomic counter).    *)
-(*  - insert, delete and point lookup take effect atomically at a silent       *)
+(*  - insert, delete, update (old entry out, new entry in) and point lookup    *)
+(*    take effect atomically at a silent       *)
 (*    linearization step between invocation and return (TLC infers it);        *)
 (*  - an ordered scan is not required to be one atomic snapshot (the skip list *)
 (*    couples latches node by node): it must return, in key order and each     *)
@@ -52,6 +53,11 @@ Lin(c) == /\ l <= TraceLen /\ TraceLog[l].ev = "Ret" /\ (TraceLog[l].c \in DOMAI
                                                                            THEN [scans[s] EXCEPT !.may = @ \cup {<<op.a, op.r>>}] ELSE scans[s]]
                   [] op.k = "del" -> /\ ents' = ents \ {<<op.a, op.r>>}
                                      /\ scans' = [s \in DOMAIN scans |-> [scans[s] EXCEPT !.must = @ \ {<<op.a, op.r>>}]]
+                  [] op.k = "upd" -> \* UpdateEntry: the old entry goes and the new one comes in ONE step
+                                     /\ ents' = (ents \ {<<op.a, op.r>>}) \cup {<<op.a2, op.r2>>}
+                                     /\ scans' = [s \in DOMAIN scans |->
+                                           [scans[s] EXCEPT !.must = @ \ {<<op.a, op.r>>},
+                                                            !.may = IF InRange(op.a2, scans[s].e.lo, scans[s].e.hi) THEN @ \cup {<<op.a2, op.r2>>} ELSE @]]
                   [] op.k = "point" -> /\ SetOf(op.rids) = {x[2] : x \in {y \in ents : y[1] = op.a}}
                                        /\ Len(op.rids) = Cardinality(SetOf(op.rids))
                                        /\ UNCHANGED <<ents, scans>>
